@@ -55,7 +55,8 @@ Inductive obs :=
 
 (* Fully evaluated data (what `eval_full` yields). *)
 Inductive data :=
-| DNum (n : Z) | DBool (b : bool) | DFun | DRec (fs : list (string * data)).
+| DNum (n : Z) | DBool (b : bool) | DFun | DRec (fs : list (string * data))
+| DThunk.   (* only in the result of eval_record_spine: a leaf skipped because its thunk is locked *)
 
 (* let rec f = fun x => f x in f 0 : loops without ever re-entering a thunk under evaluation *)
 Definition omega : tm :=
